@@ -118,7 +118,7 @@ Proof.
   intros manual extra r l h s2 o x s t' stk H Htx fc. unfold finish in H.
   destruct r; cbn [is_ok cls_of andb].
   - rewrite (h_end_open C fault hard_commit true h s2 _ Htx) in H. fold fc in H. cbn [andb work] in H.
-    set (s3 := mkSt (if negb fc then t' else s_db s2) None ((KCommit, fc) :: s_ops s2) (s_gen s2) (TEnd :: s_txlog s2) (s_fl s2) (s_dead s2)) in *.
+    set (s3 := mkSt (if negb fc then t' else s_db s2) None ((KCommit, fc) :: s_ops s2) (s_gen s2) (TEnd :: s_txlog s2) (s_fl s2) (s_dead s2) (s_nonest s2)) in *.
     assert (Hc : s_tx s3 = None) by reflexivity.
     destruct (add_error h (if fc then Some fault_err else None)) as [e|] eqn:Ea.
     + rewrite (h_end_closed C fault hard_commit false (Some e) s3 Hc) in H.
@@ -192,12 +192,12 @@ Qed.
 
 Theorem top_spec : forall manual p extra db0 o x s,
   run_top E C fault manual p extra (init_st db0) = (o, x, s) ->
-  scoped [] p = true -> no_cancel p = true -> x_rb (s_fl s) = false -> x_drop (s_fl s) = false ->
+  scoped [] p = true -> plain_prog p = true -> x_rb (s_fl s) = false -> x_drop (s_fl s) = false ->
   s_db s = spec_final (negb (c_nonest C)) o (rev (s_ops s)) db0
   /\ top_ok o (rev (s_ops s)) = true /\ usable o (rev (s_ops s)) = true /\ extras_ok extra x = true.
 Proof.
   intros manual p extra db0 o x s H Hsc Hnc Hrb Hdr. unfold run_top, issue in H.
-  cbn [init_st s_ops length s_db s_tx s_gen s_txlog s_fl s_dead] in H.
+  cbn [init_st s_ops length s_db s_tx s_gen s_txlog s_fl s_dead s_nonest] in H.
   destruct (fault 0%nat) eqn:F0.
   - (* BEGIN failed *)
     inversion H; subst. split; [reflexivity|]. split; [reflexivity|]. split; [reflexivity|].
@@ -209,7 +209,7 @@ Proof.
     assert (Htx1 : s_tx s1 = Some (mkTx db0 ([] ++ []))) by reflexivity.
     assert (Hg1 : gen_ok (s_gen s1) ([] ++ [])) by (intros k t []).
     destruct (body_inv E savepoint_pushes rollback_to_exact C savepoints fault p [] None s1 r l h s2 db0 [] []
-                Eb eq_refl Hnc Htx1 (sub_nil _) Hsc Hg1 Hrb Hdr) as [t' [local' HI]].
+                Eb eq_refl eq_refl Hnc Htx1 (sub_nil _) Hsc Hg1 Hrb Hdr) as [t' [local' HI]].
     destruct HI as (A1 & A2 & A3 & A4 & A5 & A6 & A7 & A8 & A9 & nops & B1 & B2 & B3).
     cbn [app fu] in A2.
     destruct (finish_open C fault hard_commit _ _ _ _ _ _ _ _ _ _ _ H A1) as (D1 & D2 & D3 & D4 & D5). cbv zeta in *.
@@ -236,13 +236,13 @@ Qed.
 
 Lemma top_atomic : forall manual p extra db0 o x s,
   run_top E C fault manual p extra (init_st db0) = (o, x, s) ->
-  scoped [] p = true -> no_cancel p = true -> x_rb (s_fl s) = false -> x_drop (s_fl s) = false ->
+  scoped [] p = true -> plain_prog p = true -> x_rb (s_fl s) = false -> x_drop (s_fl s) = false ->
   s_db s = spec_final (negb (c_nonest C)) o (rev (s_ops s)) db0.
 Proof. intros manual p extra db0 o x s H Hs Hn Hr Hd. exact (proj1 (top_spec _ _ _ _ _ _ _ H Hs Hn Hr Hd)). Qed.
 
 Lemma top_result : forall manual p extra db0 o x s,
   run_top E C fault manual p extra (init_st db0) = (o, x, s) ->
-  scoped [] p = true -> no_cancel p = true -> x_rb (s_fl s) = false -> x_drop (s_fl s) = false ->
+  scoped [] p = true -> plain_prog p = true -> x_rb (s_fl s) = false -> x_drop (s_fl s) = false ->
   top_ok o (rev (s_ops s)) = true /\ usable o (rev (s_ops s)) = true /\ extras_ok extra x = true.
 Proof. intros manual p extra db0 o x s H Hs Hn Hr Hd. exact (proj2 (top_spec _ _ _ _ _ _ _ H Hs Hn Hr Hd)). Qed.
 
